@@ -158,6 +158,39 @@ example : ∃ o₁ o₂, load exCfg false true .fp false exFull = .ok o₁ ∧
     load exCfg false true .fp false exFullShuffled = .ok o₂ ∧ o₁.data = [11, 12, 21, 22] ∧ o₂.idx = [1, 3, 2, 0] :=
   ⟨_, _, rfl, rfl, by decide, by decide⟩
 
+/-- **partial_read_eq_whole.**  A sliced read through the proxy (`dataobj[slicer]`, any non-empty
+    slicer) selects from exactly the slabs of the whole-array read, whichever path `_get_unscaled`
+    takes: the direct `fileslice` path is taken only for the index list 0,1,…,k-1, for which the first
+    k slabs of the REC file in record order ARE the gathered slabs (`take_eq_of_sequential`). -/
+theorem partial_read_eq_whole (c : Cfg) (permit strict orig : Bool) (m : Scaling) (recs : List Rec) (o : Out)
+    (h : load c permit strict m orig recs = .ok o) : o.pdata = o.data := by
+  unfold load at h
+  cases ht : truncationChecks c permit recs with
+  | error e => rw [ht] at h; cases h
+  | ok u =>
+    rw [ht] at h
+    cases hn : nVols c recs with
+    | error e => rw [hn] at h; cases h
+    | ok nv =>
+      rw [hn] at h
+      cases hs : sortedSlices c strict orig recs with
+      | error e => rw [hs] at h; cases h
+      | ok kept =>
+        rw [hs] at h
+        simp only [bind, Except.bind, pure, Except.pure] at h
+        split at h
+        · cases h
+        · injection h with h
+          subst h
+          exact partialSlabs_eq (sortedSlices_atPos hs)
+
+/-- slice-major storage of `exFull`: the sorted indices are 0,2,1,3 — first and last in place, not
+    sequential, so sliced reads must NOT go straight to the REC file -/
+example : ∃ o, load exCfg false true .dv false
+    [exRec 1 1 3 2 5 11, exRec 1 2 7 6 2 21, exRec 2 1 (-1) 4 3 12, exRec 2 2 0 3 3 22] = .ok o ∧
+    o.idx = [0, 2, 1, 3] ∧ o.direct = false ∧ o.pdata = [11, 12, 21, 22] :=
+  ⟨_, rfl, by decide, by decide, by decide⟩
+
 /-! ### 3. the defect of the pinned tree -/
 
 /-- **strict_truncated_orig_counterexample.**  ORIGINAL `_strict_sort_order` (volume numbers and
